@@ -27,7 +27,7 @@ CHECKS = {
             "Held on the cases explored: every length 0..4 blocks with one-shot, byte-wise, all 2-way and random k-way splits incl. empty updates, all 64 source alignments at padding-adjacent lengths, 64 KiB and 1 MiB+1 messages, bit-counter state injection near 2^29/2^32/2^61/2^64 (and 2^124 for SHA-512), every compiled-in transform forced through the dispatch flags; digests, reported sizes and hex text of the three entry points compared with hashlib / Python Streebog (validated on RFC 6986/7836); after final the context image must not depend on the message.",
             "trusted: Python hashlib; oracles/streebog.py and oracles/mdhash.py (self-tested against RFC vectors / hashlib in setup); variants that do not compile are recorded not_selectable; only gcc 12 and clang 14", "DESIGN.md 4 C04"),
     "C05": ("exploration", "runtime monitoring: real pool under ASan+UBSan+LSan and TSan, offline exactly-once/FIFO/affinity checker over a client-boundary event log, injected queue write/read faults, seeded schedule perturbation",
-            "Held on the executions explored: hundreds of seeded scenarios (pool sizes 1-16, external/pool/self senders, all 8 flag combinations, never-started and STARTING destinations, shared virtual thread, pipe-full EAGAIN, injected EAGAIN/EPIPE/EBADF at the first 64 queue writes and sampled later ones, EINTR/EAGAIN on queue reads) with every message carrying a unique id and every history checked offline; exploration because schedules are sampled, not enumerated.",
+            "Held on the executions explored: hundreds of seeded scenarios (pool sizes 1-16, external/pool/self senders, all 8 flag combinations, never-started and STARTING destinations, shared virtual thread, pipe-full EAGAIN, injected EAGAIN/EPIPE/EBADF at the first 64 queue writes and sampled later ones, EINTR/EAGAIN on queue reads, shutdown with accepted messages still queued: behind the stop message, in a later read batch, in a full queue, in the virtual thread's queue, or written by a sender racing tp_shutdown) with every message carrying a unique id and every history checked offline; exploration because schedules are sampled, not enumerated.",
             TP_NOTE, "DESIGN.md 4 C05"),
     "C07": ("exploration", "runtime monitoring: HMAC entry points (streaming, one-shot, digest, hex) in the C04 build variants under ASan+UBSan/MSan; hmac.new / RFC 2104 over the Python Streebog decide; key block freed after init (use-after-free monitor), context non-interference monitor for pad wiping, and a private-stack residue scan for K' xor ipad/opad after each entry point returns (non-sanitizer builds)",
             "Held on the cases explored: all eight hash variants, key lengths 0..3 blocks (every length in thorough; every boundary and every 5th otherwise in quick), messages/chunkings from the C04 generator, context reuse with a second key; MAC, sizes and entry-point agreement checked against the reference; after final the HMAC context (incl. k_opad) must be identical for twin keys/messages.",
@@ -42,7 +42,7 @@ CHECKS = {
             "Every resource acquisition of tp_create+tp_threads_create (counted by a dry run) is failed one at a time for every k and every kind for pools of 1, 2, 4 (16 in thorough) and the outcome checked (error returned, nothing left behind, hooks balanced); on top, seeded histories over create/threads_create/attach_first/shutdown (main, external, pool thread, concurrent)/wait/destroy incl. illegal orders with in-flight senders, timers and read events, perturbed at the guarded points.",
             TP_NOTE + "; descriptor/thread balance read from /proc/self", "DESIGN.md 4 C11"),
     "C06": ("exploration", "runtime monitoring: link-time interposers observe what reaches timerfd_create/timerfd_settime/epoll_ctl; online shadow-state monitor on the owning pool thread judges every callback of random add/enable/disable/delete/ready/close histories; ASan+UBSan and TSan builds",
-            "Held on the cases explored: every (value, unit, relative/absolute, periodic/one-shot/dispatch) timer request incl. unit boundaries must program exactly the equivalent itimerspec/clock; every malformed registration (flag/filter/ident/NULL combinations) must be refused without reaching the kernel and well-formed ones installed; hundreds of seeded histories over pipes, socketpairs (incl. half-close), timers and child processes, where a callback contradicting the shadow state (disabled, deleted, one-shot already fired, dispatch not re-enabled, wrong EOF flag) is a violation when it happens and expected firings are bounded-progress checked.",
+            "Held on the cases explored: every (value, unit, relative/absolute, periodic/one-shot/dispatch) timer request incl. unit boundaries must program exactly the equivalent itimerspec/clock; every malformed registration (flag/filter/ident/NULL combinations) must be refused without reaching the kernel and well-formed ones installed; hundreds of seeded histories over pipes, socketpairs (incl. half-close and reset), timers (incl. registrations the kernel refuses) and child processes, registered on a worker or on the pool virtual thread, where a callback contradicting the shadow state (disabled, deleted, one-shot already fired, dispatch not re-enabled, wrong EOF flag) is a violation when it happens and expected firings are bounded-progress checked.",
             TP_NOTE + "; cross-thread enable/disable is not gated; absolute periodic interval not asserted", "DESIGN.md 4 C06"),
     "C16": ("exploration", "runtime monitoring: real I/O tasks over socketpairs/loopback with a feeder/drainer peer; callback-boundary monitor (window cursors, canaries in an exact-size heap buffer, stop/pause shadow flags) plus offline byte-stream comparison; ASan+UBSan and TSan builds",
             "Held on the scenarios explored: read/recv tasks must hand over exactly the fed byte stream through the buffer windows (every window position/size incl. 1-byte, persistent/dispatch/one-shot, callback-after-every-read, direct first I/O), with cursors advanced by exactly the transferred amount and nothing written outside the window; end of stream once; a TCP reset by the peer reported once as an error; timeouts once for a 10x gap and never for gaps <= T/20; nothing after stop/destroy on the owning thread, nothing while a dispatch task is paused; write/send tasks must deliver exactly the window to a slow peer through a tiny send buffer and complete once; packet receiver and accept tasks are counted.",
